@@ -27,9 +27,9 @@ pub fn probit(u: f64) -> f64 {
     }
 }
 
-pub const SHAPES: usize = 13;
+pub const SHAPES: usize = 14;
 pub const SHAPE_NAMES: [&str; SHAPES] = [
-    "uniform", "normal", "exponential", "lognormal", "two-point", "bimodal", "single-outlier", "arith-progression", "small-alphabet", "alternating", "neg-heavy-tail", "cubed-normal", "wild-magnitudes",
+    "uniform", "normal", "exponential", "lognormal", "two-point", "bimodal", "single-outlier", "arith-progression", "small-alphabet", "alternating", "neg-heavy-tail", "cubed-normal", "wild-magnitudes", "near-symmetric",
 ];
 
 /// Map raw uniforms to a shape (values of order one, before placement).
@@ -58,10 +58,25 @@ pub fn shape_values(shape: usize, raw: &[f64]) -> Vec<f64> {
             let t = probit(u);
             t * t * t
         })),
-        _ => v.extend(raw.iter().enumerate().map(|(i, &u)| {
+        12 => v.extend(raw.iter().enumerate().map(|(i, &u)| {
             let s = if i % 3 == 0 { -1.0 } else { 1.0 };
             s * 10f64.powf(20.0 * u - 10.0)
         })),
+        _ => {
+            // mirror pairs +-a_j (exactly symmetric), then one element nudged by a relative 1e-12..1e-5:
+            // tiny but non-zero odd moments
+            for j in 0..n {
+                let a = probit(raw[j / 2 * 2]).abs() + 0.25;
+                v.push(if j % 2 == 0 { a } else { -a });
+            }
+            if n % 2 == 1 {
+                v[n - 1] = 0.0;
+            }
+            if n >= 2 {
+                let e = 10f64.powf(-12.0 + 7.0 * raw[n - 1]);
+                v[0] *= 1.0 + e;
+            }
+        }
     }
     v
 }
